@@ -59,7 +59,8 @@ func SafeRun(p *Property, env *Env, c any) (out Outcome) {
 	defer func() {
 		if r := recover(); r != nil {
 			st := string(debug.Stack())
-			if msg := fmt.Sprint(r); strings.HasPrefix(msg, "generator produced") || strings.HasPrefix(msg, "harness:") {
+			// a panic with no gopatch frame on the stack happened in the harness itself
+			if msg := fmt.Sprint(r); strings.HasPrefix(msg, "generator produced") || strings.HasPrefix(msg, "harness:") || (!strings.Contains(st, "github.com/uber-go/gopatch/") && !strings.HasPrefix(msg, "gopatch CLI crashed")) {
 				// a defect of the harness, not of gopatch: never a verdict
 				out = Outcome{Skip: "HARNESS-BUG: " + firstLineOf(msg)}
 				fmt.Fprintf(os.Stderr, "HARNESS-BUG: %s\n", msg)
